@@ -102,6 +102,17 @@ def wrap_method(cls, name, oracle, ctx):
     return wrapper
 
 
+def wrap_property(cls, name, oracle, ctx):
+    """Replace the getter of property cls.<name>; oracle(ctx, (self,), {}, value, exc, pre)."""
+    prop = cls.__dict__[name]
+    label = f'{cls.__name__}.{name}'
+    getter = _make_wrapper(prop.fget, oracle, ctx, label)
+    setattr(cls, name, property(getter, prop.fset, prop.fdel, prop.__doc__))
+    _installed.append((cls, name, prop))
+    ctx.anchors.setdefault('probe:' + label, 0)
+    return getter
+
+
 class quiet:
     """Context manager: run lentil calls made by an oracle/driver without re-triggering probes."""
     def __enter__(self):
